@@ -27,6 +27,13 @@ Definition qshift (dx dy : Z) (r : qrect) : qrect :=
   {| rx := (rx r + inject_Z dx)%Q; ry := (ry r + inject_Z dy)%Q; rw := rw r; rh := rh r |}.
 Definition canvas_rect (W H : Z) : irect := {| ix := 0; iy := 0; iw := W; ih := H |}.
 
+(* A nested group is rendered in the coordinate frame of its parent layer: device pixel (px,py) is the
+   local pixel (px - ox, py - oy), (ox,oy) = accumulated origin of the enclosing layers.  render_group
+   clamps against ctx.max_bbox in that local frame WITHOUT translating it; the clamp is harmless exactly
+   when the canvas, seen from the frame, still lies inside max_bbox. *)
+Definition frame_ok (W H ox oy : Z) (m : irect) : Prop := inside (ishift (- ox) (- oy) (canvas_rect W H)) m.
+Definition frame_okb (W H ox oy : Z) (m : irect) : bool := insideb (ishift (- ox) (- oy) (canvas_rect W H)) m.
+
 (* ---------------------------------------------------------------- resvg::render: max_bbox *)
 (* None = the `.unwrap()` in resvg::render panics *)
 Definition max_bbox (W H : Z) : option irect :=
@@ -34,8 +41,10 @@ Definition max_bbox (W H : Z) : option irect :=
 
 (* ---------------------------------------------------------------- render_group: the layer *)
 Inductive lres := LPanic | LSkip | LBox (r : irect).
+(* the filtered branch panics only if it still goes through tiny_skia_path's Rect::to_int_rect().unwrap()
+   (layer_to_int_rect_unwraps is derived from the source text) *)
 Definition layer_panics (bbox : qrect) (no_filters : bool) : bool :=
-  negb no_filters && to_int_rect_panics bbox.
+  layer_to_int_rect_unwraps && negb no_filters && to_int_rect_panics bbox.
 Definition layer_box (bbox : qrect) (no_filters : bool) (m : irect) : lres :=
   if layer_panics bbox no_filters then LPanic
   else match layer_ibbox bbox no_filters m with Some r => LBox r | None => LSkip end.
@@ -68,7 +77,7 @@ Definition layer_content_ts (bbox : qrect) (ibbox : irect) (transform : ts) : ts
    bounding box: rect.transform(layer transform).to_int_rect(); the layer transform is the group
    transform shifted by the (integer) layer origin *)
 Definition filter_region (bbox : qrect) (ibbox : irect) : option irect :=
-  rect_to_int_rect_opt (qshift (- ix ibbox) (- iy ibbox) bbox).
+  filter_to_int_rect (qshift (- ix ibbox) (- iy ibbox) bbox).
 Definition filter_sizes_agree (bbox : qrect) (m : irect) : bool :=
   match layer_box bbox false m with
   | LBox i => match filter_region bbox i with
